@@ -2,7 +2,7 @@
 (* Evaluates the codec properties on raw input/output records logged from the real      *)
 (* Pack / Unpack functions (harness/codec).  The reference specifications Cemi, Knxnet, *)
 (* Addr, Dpt own the meaning; this module only dispatches on the record kind.           *)
-EXTENDS Knxnet, Addr, Group, Json, IOUtils, TLC, FiniteSets, SequencesExt
+EXTENDS Knxnet, Addr, Group, Dpt, Registry, Json, IOUtils, TLC, FiniteSets, SequencesExt
 
 Recs == ndJsonDeserialize(IOEnv.TRACE)
 
@@ -98,20 +98,101 @@ JGroup(r) ==
     [] r.op = "close" -> IF r.got = 1 THEN {} ELSE {"C12.CloseFollows"}
     [] OTHER -> {}
 
-Judge(r) ==
+\* ---- C06 / C08: datapoint decode, re-encode, decode ----------------------------------------------
+JDptRT(r) ==
+  LET f == Fam(r.main, r.sub)
+      wrongLen == IF r.main = 28 THEN Len(r.b) < 2 ELSE Len(r.b) # FixedLen(r.main)
+      acc == r.panic = 0 /\ r.ok1 = 1
+  IN (IF r.panic = 0 /\ r.span = 0 THEN {} ELSE {"C08.Total"})
+     \cup (IF wrongLen /\ r.ok1 = 1 THEN {"C08.WrongLengthRejected"} ELSE {})
+     \cup (IF acc /\ ~wrongLen /\ ~InRange(r.main, r.sub, r.v1) THEN {"C08.InRange"} ELSE {})
+     \cup (IF r.op = "rt" /\ acc /\ r.ok2 # 1 THEN {"C06.Reaccepted"} ELSE {})
+     \cup (IF r.op = "rt" /\ acc /\ r.ok2 = 1 /\ r.v1 # r.v2 THEN {"C06.SameValue"} ELSE {})
+     \cup (IF r.op = "rt" /\ acc /\ ~wrongLen /\ Exact(f) /\ r.b2 # CanonB(f, r.b) THEN {"C06.ByteIdentical"} ELSE {})
+
+\* ---- C07: datapoint encoding ------------------------------------------------------------------
+Abs(x) == IF x < 0 THEN 0 - x ELSE x
+BE16(w) == <<w \div 256, (w % 256)>>
+Scaled(f) == f \in {"F16", "S8a", "S8b", "S16c", "S16d"}
+
+\* the exact encoding of an integer / boolean / structured value x (as logged) in family f
+ExactEnc(f, x) ==
+  CASE f = "B1" -> <<x.v>>
+    [] f \in {"U8", "enum"} -> <<0, x.v>>
+    [] f = "V8" -> <<0, ((x.v + 256) % 256)>>
+    [] f = "U16" -> <<0>> \o BE16(x.v)
+    [] f = "V16" -> <<0>> \o BE16(((x.v + 65536) % 65536))
+    [] f = "U32" -> IF x.t = "u32" THEN <<0>> \o BE16(x.hi) \o BE16(x.lo) ELSE <<0>> \o BE16(x.v \div 65536) \o BE16((x.v % 65536))
+    [] f = "V32" -> IF x.v >= 0 THEN <<0>> \o BE16(x.v \div 65536) \o BE16((x.v % 65536))
+                    ELSE LET w == x.v + 2147483647 + 1 IN <<0>> \o BE16(32768 + w \div 65536) \o BE16((w % 65536))
+    [] f = "F32" -> <<0>> \o BE16(x.hi) \o BE16(x.lo)
+    [] f = "scene" -> <<0, DMin(x.v, 63)>>
+    [] f = "scenectl" -> <<0, IF x.v <= 63 \/ (x.v >= 128 /\ x.v <= 191) THEN x.v ELSE 63>>
+    [] f = "time" -> IF x.f[1] <= 7 /\ x.f[2] <= 23 /\ x.f[3] <= 59 /\ x.f[4] <= 59
+                     THEN <<0, x.f[1] * 32 + x.f[2], x.f[3], x.f[4]>> ELSE <<0, 0, 0, 0>>
+    [] f = "date" -> IF ValidDate(x.f[1], x.f[2], x.f[3])
+                     THEN <<0, x.f[3], x.f[2], IF x.f[1] < 2000 THEN x.f[1] - 1900 ELSE x.f[1] - 2000>> ELSE <<0, 0, 0, 0>>
+    [] f = "rgb" -> <<0, x.f[1], x.f[2], x.f[3]>>
+    [] OTHER -> << >>
+HasExactEnc(f) == f \in {"B1", "U8", "enum", "V8", "U16", "V16", "U32", "V32", "F32", "scene", "scenectl", "time", "date", "rgb"}
+
+JDptEnc(pr, r) ==
+  LET f == Fam(r.main, r.sub)
+      b == r.b
+      lenOk == IF r.main = 28 THEN Len(b) >= 2 /\ b[1] = 0 /\ b[Len(b)] = 0
+               ELSE Len(b) = FixedLen(r.main) /\ (IF FixedLen(r.main) = 1 THEN b[1] <= 63 ELSE b[1] = 0)
+      sc == Scaled(f) /\ r["in"].t = "f32" /\ lenOk
+      q == Q(r["in"].hi, r["in"].lo)
+      lo == RangeLoQ(r.main, r.sub)
+      hi == RangeHiQ(r.main, r.sub)
+      d == DecQ(f, b)
+      mono == /\ pr.k = "dpt" /\ pr.op = "enc" /\ pr.name = r.name /\ pr.idx + 1 = r.idx /\ pr.panic = 0
+              /\ Len(pr.b) = FixedLen(r.main)
+  IN (IF r.panic = 0 /\ r.ok1 = 1 THEN {} ELSE {"C07.SelfDecodable"})
+     \cup (IF r.panic = 1 \/ lenOk THEN {} ELSE {"C07.Length"})
+     \cup (IF sc /\ q >= lo /\ q <= hi /\ Abs(d - q) > StepQ(f, q) + 2 THEN {"C07.OneStep"} ELSE {})
+     \cup (IF sc /\ q < lo /\ Abs(d - lo) > StepQ(f, lo) + 2 THEN {"C07.Saturates"} ELSE {})
+     \cup (IF sc /\ q > hi /\ Abs(d - hi) > StepQ(f, hi) + 2 THEN {"C07.Saturates"} ELSE {})
+     \cup (IF sc /\ mono /\ DecQ(f, pr.b) > d THEN {"C07.Monotone"} ELSE {})
+     \cup (IF r.panic = 0 /\ lenOk /\ HasExactEnc(f) /\ b # ExactEnc(f, r["in"]) THEN {IF f \in {"time", "date", "scene", "scenectl"} THEN "C07.Saturates" ELSE "C07.OneStep"} ELSE {})
+     \cup (IF r.panic = 0 /\ r.ok1 = 1 /\ f \in {"xyY", "rgbw", "rgb"} /\ r.v1 # r["in"] THEN {"C07.SelfDecodable"} ELSE {})
+
+JDpt(pr, r) ==
+  CASE r.op \in {"rt", "dec"} -> JDptRT(r)
+    [] r.op = "enc" -> JDptEnc(pr, r)
+    [] OTHER -> {}
+
+\* ---- C19: registry ---------------------------------------------------------------------------
+JReg(r) ==
+  CASE r.op = "name" ->
+         (IF r.ok = 1 THEN {} ELSE {"C19.Listed"})
+         \cup (IF WellFormed(r.name) THEN {} ELSE {"C19.Format"})
+         \cup (IF r.dup = 1 THEN {} ELSE {"C19.Unique"})
+         \cup (IF r.ok = 1 /\ Numeric(r.name) /\ r.type # KeyOf(r.name) THEN {"C19.Keyed"} ELSE {})
+    [] r.op = "declared" ->
+         IF \A i \in 1..Len(r.decl) : \E j \in 1..Len(r.prod) : r.prod[j] = r.decl[i] THEN {} ELSE {"C19.Complete"}
+    [] r.op = "unknown" -> IF r.ok = 0 THEN {} ELSE {"C19.UnknownRejected"}
+    [] r.op = "seq" -> Run(r.steps, 1, << >>, r.ref)
+    [] r.op = "conc" -> IF r.mism = 0 THEN {} ELSE {"C19.Independent"}
+    [] OTHER -> {}
+
+Judge(pr, r) ==
   CASE r.k = "ldata" -> JLData(r)
     [] r.k = "helper" -> JHelper(r)
     [] r.k = "addr" -> JAddr(r)
     [] r.k = "svc" -> JSvc(r)
     [] r.k = "dec" -> JDec(r)
     [] r.k = "group" -> JGroup(r)
+    [] r.k = "dpt" -> JDpt(pr, r)
+    [] r.k = "reg" -> JReg(r)
     [] OTHER -> {}
 
 VARIABLE l
 TInit == l = 1
+NoRec == [k |-> "none"]
 TNext ==
   /\ l <= Len(Recs)
-  /\ LET bad == Judge(Recs[l]) IN bad # {} => PrintT(<<"BAD", 0, l, l, SetToSeq(bad)>>)
+  /\ LET bad == Judge(IF l = 1 THEN NoRec ELSE Recs[l - 1], Recs[l]) IN bad # {} => PrintT(<<"BAD", 0, l, l, SetToSeq(bad)>>)
   /\ (l = Len(Recs) => PrintT(<<"DONE", l>>))
   /\ l' = l + 1
 TSpec == TInit /\ [][TNext]_l
